@@ -120,81 +120,167 @@ example : InI31 1073741823 ∧ InI31 (-1073741824) ∧ ¬ InI31 1073741824 := by
 
 /-! ## 3. String constants -/
 
-/- Full-strength statement (still FALSE on the code after fixes 0e855e5 and 8056d1e: C04-F2):
-   theorem strconst_agree (raw : Text) (h : lexAccepts raw = true) :
-       tsDecode (content raw) = some (wasmDecode (content raw))                                   -/
-
-/-- `"a\nb"`: the TypeScript template literal cooks the escape into a line feed, the WebAssembly
-data segment keeps backslash + `n` (finding C04-F2, open). -/
-theorem strconst_agree_counterexample :
-    ¬ ∀ raw : Text, lexAccepts raw = true → tsDecode (content raw) = some (wasmDecode (content raw)) := by
-  intro h
-  have h1 := h [97, 92, 110, 98] (by decide)
-  have h2 : wasmDecode (content [97, 92, 110, 98]) = [97, 92, 110, 98] := by
-    simp [wasmDecode, content, unescapeQuotes, utf8, byteToU8, utf8Decode, utf16]
-  rw [h2] at h1
-  simp [tsDecode, tsEscape, tsCook, content, unescapeQuotes, utf16] at h1
-
-/- Historical note: before fix 8056d1e `"é"` was a second witness (bytes read back one UTF-16 unit
-per sign-extended byte, C04-F4) and before fix 0e855e5 a back quote / `${` a third one (C04-F3);
-both are now inside `strconst_agree_partial`. -/
+/- Historical note. Before the fixes the full-strength statement below was false and this section
+held counterexample theorems: `"a\nb"` (C04-F2: escapes cooked by the template literal, kept raw in
+the data segment; fixed 9fd2988), `"é"` (C04-F4, fixed 8056d1e), a back quote / `${` (C04-F3, fixed
+0e855e5), `"\01"` (C03-F4: octal escape, fixed 9fd2988). -/
 
 /-- Unicode scalar value -/
 def Scalar (v : Nat) : Prop := v < 1114112 ∧ ¬ (55296 ≤ v ∧ v < 57344)
 
 instance (v : Nat) : Decidable (Scalar v) := by unfold Scalar; infer_instance
 
-/-- any text without backslash and carriage return (back quotes, `$`, `{`, non-ASCII allowed) -/
-def CleanText (s : Text) : Prop := ∀ c ∈ s, Scalar c ∧ c ≠ 92 ∧ c ≠ 13
+/-- the eight escape letters of the language (`t v 0 b f n r \`) -/
+def IsEsc (e : Nat) : Prop :=
+  e = 116 ∨ e = 118 ∨ e = 48 ∨ e = 98 ∨ e = 102 ∨ e = 110 ∨ e = 114 ∨ e = 92
 
-theorem tsCook_plain_cons (c : Nat) (rest : Text) (h1 : c ≠ 92) (h2 : c ≠ 96) (h3 : c ≠ 13)
-    (h4 : c = 36 → rest.head? ≠ some 123) :
-    tsCook (c :: rest) = (tsCook rest).map (utf16 c ++ ·) := by
-  rw [tsCook.eq_def]
-  split <;> simp_all
+instance (e : Nat) : Decidable (IsEsc e) := by unfold IsEsc; infer_instance
 
-theorem tsCook_escaped (c : Nat) (rest : Text) (hc : c = 96 ∨ c = 36) :
-    tsCook (92 :: c :: rest) = (tsCook rest).map (utf16 c ++ ·) := by
-  rw [tsCook.eq_def]
-  rcases hc with rfl | rfl <;> simp [isDigit]
+/-- content in which every backslash starts one of the eight escape sequences -/
+def WellEsc : Text → Prop
+  | [] => True
+  | 92 :: [] => False
+  | 92 :: e :: r => IsEsc e ∧ WellEsc r
+  | _ :: r => WellEsc r
 
-theorem tsEscape_head (r : Text) (h : (tsEscape r).head? = some 123) : r.head? = some 123 := by
-  induction r using tsEscape.induct with
-  | case1 => simp [tsEscape] at h
-  | case2 r _ => simp [tsEscape] at h
-  | case3 r _ => simp [tsEscape] at h
-  | case4 c r h1 h2 _ =>
-    rw [tsEscape] at h
-    · simpa using h
-    · exact h1
-    · exact h2
+/-- the same for the literal as written: `\"` is a ninth escape, a bare `"` or line feed cannot occur -/
+def WellEscQ : Text → Prop
+  | [] => True
+  | 92 :: [] => False
+  | 92 :: e :: r => (IsEsc e ∨ e = 34) ∧ WellEscQ r
+  | c :: r => c ≠ 34 ∧ c ≠ 10 ∧ WellEscQ r
 
-/-- the escaped template literal denotes exactly the content's UTF-16 code units -/
-theorem tsDecode_clean (s : Text) (h : ∀ c ∈ s, c ≠ 92 ∧ c ≠ 13) :
-    tsDecode s = some (s.flatMap utf16) := by
-  unfold tsDecode
-  induction s using tsEscape.induct with
-  | case1 => simp [tsEscape, tsCook]
-  | case2 r ih =>
-    rw [tsEscape, tsCook_escaped 96 _ (Or.inl rfl), ih (fun c hc => h c (List.mem_cons_of_mem _ hc))]
-    simp
-  | case3 r ih =>
-    rw [tsEscape, tsCook_escaped 36 _ (Or.inr rfl),
-      tsCook_plain_cons 123 _ (by decide) (by decide) (by decide) (fun e => absurd e (by decide)),
-      ih (fun c hc => h c (List.mem_cons_of_mem _ (List.mem_cons_of_mem _ hc)))]
-    simp
-  | case4 c r h1 h2 ih =>
-    have hc := h c List.mem_cons_self
-    rw [tsEscape]
-    · rw [tsCook_plain_cons c _ hc.1 (fun e => h1 e) hc.2, ih (fun d hd => h d (List.mem_cons_of_mem _ hd))]
+theorem wellEscQ_cons_plain (c : Nat) (r : Text) (h : c ≠ 92) :
+    WellEscQ (c :: r) ↔ (c ≠ 34 ∧ c ≠ 10 ∧ WellEscQ r) := by
+  rw [WellEscQ]
+  · intro e; exact absurd e h
+  · intro e r' h1 _; exact absurd h1 h
+
+theorem wellEsc_cons_plain (c : Nat) (r : Text) (h : c ≠ 92) : WellEsc (c :: r) ↔ WellEsc r := by
+  rw [WellEsc]
+  · intro e; exact absurd e h
+  · intro e r' h1 _; exact absurd h1 h
+
+/-- what the lexer's two scans accept, with `bs` backslashes pending -/
+theorem lex_wellEscQ (raw : Text) :
+    (∀ bs, bs % 2 = 0 → closesAtEnd bs raw = true → validEscapes false raw = true → WellEscQ raw) ∧
+    (∀ bs, bs % 2 = 1 → closesAtEnd bs raw = true → validEscapes true raw = true →
+      WellEscQ (92 :: raw)) := by
+  induction raw with
+  | nil =>
+    refine ⟨fun _ _ _ _ => trivial, fun bs hb hc _ => ?_⟩
+    simp [closesAtEnd] at hc; omega
+  | cons c r ih =>
+    obtain ⟨ih0, ih1⟩ := ih
+    constructor
+    · intro bs hb hc hv
+      by_cases h92 : c = 92
+      · subst h92
+        simp only [closesAtEnd, validEscapes] at hc hv
+        simp at hc hv
+        exact ih1 (bs + 1) (by omega) hc hv
+      · by_cases h10 : c = 10
+        · subst h10; simp [closesAtEnd] at hc
+        · by_cases h34 : c = 34
+          · subst h34; simp [closesAtEnd] at hc; omega
+          · simp only [closesAtEnd, validEscapes, h92, h10, h34, if_false] at hc hv
+            simp at hv
+            rw [wellEscQ_cons_plain c r h92]
+            exact ⟨h34, h10, ih0 0 rfl hc hv⟩
+    · intro bs hb hc hv
+      by_cases h92 : c = 92
+      · subst h92
+        simp only [closesAtEnd, validEscapes] at hc hv
+        simp at hc hv
+        exact ⟨Or.inl (by unfold IsEsc; simp), ih0 (bs + 1) (by omega) hc hv⟩
+      · by_cases h10 : c = 10
+        · subst h10; simp [closesAtEnd] at hc
+        · by_cases h34 : c = 34
+          · subst h34
+            simp only [closesAtEnd, validEscapes] at hc hv
+            simp at hc hv
+            exact ⟨Or.inr rfl, ih0 0 rfl hc.2 hv⟩
+          · simp only [closesAtEnd, validEscapes, h92, h10, h34, if_false] at hc hv
+            simp at hv
+            refine ⟨Or.inl ?_, ih0 0 rfl hc hv.2⟩
+            have := hv.1
+            unfold IsEsc
+            omega
+
+theorem lexAccepts_wellEscQ (raw : Text) (h : lexAccepts raw = true) : WellEscQ raw := by
+  unfold lexAccepts at h
+  simp at h
+  exact (lex_wellEscQ raw).1 0 rfl h.1 h.2
+
+/-- `unescape_quotes` turns an accepted literal into well-escaped content (the left-to-right
+replacement of `\"` never splits a `\\` pair) and only drops characters -/
+theorem content_wellEsc (raw : Text) (h : WellEscQ raw) :
+    WellEsc (content raw) ∧ ∀ c ∈ content raw, c ∈ raw := by
+  unfold content
+  induction raw using WellEscQ.induct with
+  | case1 => exact ⟨trivial, by simp [unescapeQuotes]⟩
+  | case2 => exact absurd h (by simp [WellEscQ])
+  | case3 e r ih =>
+    rw [WellEscQ] at h
+    obtain ⟨he, hr⟩ := h
+    obtain ⟨ih1, ih2⟩ := ih hr
+    by_cases h34 : e = 34
+    · subst h34
+      simp only [unescapeQuotes]
+      refine ⟨by rw [wellEsc_cons_plain 34 _ (by decide)]; exact ih1, ?_⟩
+      intro c hc
+      rcases List.mem_cons.mp hc with rfl | hc
       · simp
-      · intro e hh
-        have := tsEscape_head r hh
-        cases r with
-        | nil => simp at this
-        | cons d r' => simp at this; subst this; exact h2 r' e rfl
-    · exact h1
-    · exact h2
+      · exact List.mem_cons_of_mem _ (List.mem_cons_of_mem _ (ih2 c hc))
+    · have hesc : IsEsc e := he.elim id (fun h => absurd h h34)
+      have h1 : unescapeQuotes (92 :: e :: r) = 92 :: unescapeQuotes (e :: r) := by
+        rw [unescapeQuotes]
+        intro r' e1 e2
+        exact h34 (List.cons.inj e2).1
+      have h2 : unescapeQuotes (e :: r) = e :: unescapeQuotes r := by
+        by_cases h92 : e = 92
+        · subst h92
+          -- `r` cannot start with a bare quote
+          cases r with
+          | nil => simp [unescapeQuotes]
+          | cons q r' =>
+            have hq : q ≠ 34 := by
+              intro hq; subst hq
+              rw [WellEscQ] at hr
+              · exact hr.1 rfl
+              · intro e; cases e
+              · intro e r'' h1 _; cases h1
+            rw [unescapeQuotes]
+            intro r'' e1 e2
+            injection e2 with e2 e3
+            exact hq e2
+        · rw [unescapeQuotes]
+          intro r' e1 _; exact h92 e1
+      rw [h1, h2]
+      refine ⟨by rw [WellEsc]; exact ⟨hesc, ih1⟩, ?_⟩
+      intro c hc
+      rcases List.mem_cons.mp hc with rfl | hc
+      · simp
+      · rcases List.mem_cons.mp hc with rfl | hc
+        · simp
+        · exact List.mem_cons_of_mem _ (List.mem_cons_of_mem _ (ih2 c hc))
+  | case4 c r hne1 hne2 ih =>
+    have h92 : c ≠ 92 := by
+      intro e; subst e
+      cases r with
+      | nil => exact hne1 rfl rfl
+      | cons e r' => exact hne2 e r' rfl rfl
+    rw [wellEscQ_cons_plain c r h92] at h
+    obtain ⟨ih1, ih2⟩ := ih h.2.2
+    have hu : unescapeQuotes (c :: r) = c :: unescapeQuotes r := by
+      rw [unescapeQuotes]
+      intro r' e1 _; exact h92 e1
+    rw [hu]
+    refine ⟨by rw [wellEsc_cons_plain c _ h92]; exact ih1, ?_⟩
+    intro d hd
+    rcases List.mem_cons.mp hd with rfl | hd
+    · simp
+    · exact List.mem_cons_of_mem _ (ih2 d hd)
 
 theorem byteToU8_id (b : Nat) (h : b < 256) : byteToU8 b = b := by
   unfold byteToU8; split <;> omega
@@ -238,60 +324,247 @@ theorem utf8_roundtrip (s : Text) (h : ∀ c ∈ s, Scalar c) :
     simp only [List.flatMap_cons, List.map_append]
     rw [utf8Decode_utf8 c (h c List.mem_cons_self), ih (fun d hd => h d (List.mem_cons_of_mem _ hd))]
 
-/-- **String constants**: for every content without backslash and carriage return — back quotes,
-`${`, quotes and all of Unicode included — the emitted TypeScript and the emitted WebAssembly (with
-its loader) hold the same string. -/
-theorem strconst_agree_content (s : Text) (h : CleanText s) : tsDecode s = some (wasmDecode s) := by
-  rw [tsDecode_clean s (fun c hc => (h c hc).2)]
-  unfold wasmDecode
-  rw [utf8_roundtrip s (fun c hc => (h c hc).1)]
+/-! ### equations of the two printers -/
 
-example : CleanText [97, 96, 36, 123, 49, 125, 233, 128184] := by
-  intro c hc; simp at hc; rcases hc with rfl | rfl | rfl | rfl | rfl | rfl | rfl | rfl <;> decide
+theorem tsCook_plain_cons (c : Nat) (rest : Text) (h1 : c ≠ 92) (h2 : c ≠ 96) (h3 : c ≠ 13)
+    (h4 : c = 36 → rest.head? ≠ some 123) :
+    tsCook (c :: rest) = (tsCook rest).map (utf16 c ++ ·) := by
+  rw [tsCook.eq_def]
+  split <;> simp_all
 
-/-- a literal as written whose only escape is `\"` and that has no line feed / carriage return -/
-def QuoteEscapesOnly : Text → Prop
-  | 92 :: 34 :: r => QuoteEscapesOnly r
-  | c :: r => Scalar c ∧ c ≠ 92 ∧ c ≠ 34 ∧ c ≠ 10 ∧ c ≠ 13 ∧ QuoteEscapesOnly r
-  | [] => True
+theorem tsCook_escaped (c : Nat) (rest : Text) (hc : c = 96 ∨ c = 36) :
+    tsCook (92 :: c :: rest) = (tsCook rest).map (utf16 c ++ ·) := by
+  rw [tsCook.eq_def]
+  rcases hc with rfl | rfl <;> simp [isDigit]
 
-theorem closesAtEnd_one_quote (r : Text) : closesAtEnd 1 (34 :: r) = closesAtEnd 0 r := by
-  simp [closesAtEnd]
 
-/-- **Partial form of `strconst_agree`** on the literal as written: every literal whose only
-escape sequence is `\"` (no other backslash, no raw CR) is accepted by the lexer and denotes the
-same string in the emitted TypeScript and the emitted WebAssembly. -/
-theorem strconst_agree_partial (raw : Text) (h : QuoteEscapesOnly raw) :
-    lexAccepts raw = true ∧ tsDecode (content raw) = some (wasmDecode (content raw)) := by
-  have key : closesAtEnd 0 raw = true ∧ validEscapes false raw = true ∧ CleanText (content raw) := by
-    induction raw using QuoteEscapesOnly.induct with
-    | case1 r ih =>
-      rw [QuoteEscapesOnly] at h
-      obtain ⟨a, b, c⟩ := ih h
-      refine ⟨by simp [closesAtEnd, a], by simp [validEscapes, b], ?_⟩
-      simp only [content, unescapeQuotes]
-      intro d hd
-      rcases List.mem_cons.mp hd with rfl | hd
-      · decide
-      · exact c d hd
-    | case2 c r hne ih =>
-      rw [QuoteEscapesOnly] at h
-      · obtain ⟨hs, h92, h34, h10, h13, hr⟩ := h
-        obtain ⟨a, b, cc⟩ := ih hr
-        refine ⟨by simp [closesAtEnd, h10, h34, h92, a], by simp [validEscapes, h92, b], ?_⟩
-        have hu : unescapeQuotes (c :: r) = c :: unescapeQuotes r := by
-          rw [unescapeQuotes]
-          intro r' e1 e2; exact h92 e1
-        simp only [content, hu]
-        intro d hd
-        rcases List.mem_cons.mp hd with rfl | hd
-        · exact ⟨hs, h92, h13⟩
-        · exact cc d hd
-      · exact hne
-    | case3 => exact ⟨rfl, rfl, by intro d hd; simp [content, unescapeQuotes] at hd⟩
-  exact ⟨by unfold lexAccepts; rw [key.1, key.2.1]; rfl, strconst_agree_content _ key.2.2⟩
+theorem tsEscape_nil : tsEscape [] = [] := by rw [tsEscape]
 
-example : QuoteEscapesOnly [115, 97, 121, 32, 92, 34, 104, 105, 92, 34, 96, 36, 123, 233] := by
-  simp [QuoteEscapesOnly]; decide
+theorem tsEscape_nul_digit (d : Nat) (r : Text) (h : isDigit d = true) :
+    tsEscape (92 :: 48 :: d :: r) = 92 :: 120 :: 48 :: 48 :: tsEscape (d :: r) := by
+  rw [tsEscape]; simp [h]
+
+theorem tsEscape_nul_other (d : Nat) (r : Text) (h : isDigit d = false) :
+    tsEscape (92 :: 48 :: d :: r) = 92 :: 48 :: tsEscape (d :: r) := by
+  rw [tsEscape]; simp [h]
+
+theorem tsEscape_nul_end : tsEscape [92, 48] = [92, 48] := by
+  rw [tsEscape]
+  · rw [tsEscape_nil]
+  all_goals (intros; simp_all)
+
+theorem tsEscape_esc (e : Nat) (r : Text) (h : e ≠ 48) :
+    tsEscape (92 :: e :: r) = 92 :: e :: tsEscape r := by
+  rw [tsEscape]
+  all_goals (intros; simp_all)
+
+theorem tsEscape_backtick (r : Text) : tsEscape (96 :: r) = 92 :: 96 :: tsEscape r := by
+  rw [tsEscape]
+
+theorem tsEscape_subst (r : Text) : tsEscape (36 :: 123 :: r) = 92 :: 36 :: tsEscape (123 :: r) := by
+  rw [tsEscape]
+
+theorem tsEscape_cr (r : Text) : tsEscape (13 :: r) = 92 :: 114 :: tsEscape r := by
+  rw [tsEscape]
+
+theorem tsEscape_plain (c : Nat) (r : Text) (h1 : c ≠ 92) (h2 : c ≠ 96) (h3 : c ≠ 13)
+    (h4 : c = 36 → r.head? ≠ some 123) : tsEscape (c :: r) = c :: tsEscape r := by
+  rw [tsEscape]
+  all_goals (intros; simp_all)
+
+/-- every rewritten prefix starts with a backslash, so any other first character is the original one -/
+theorem tsEscape_head (s : Text) (x : Nat) (hx : x ≠ 92) (h : (tsEscape s).head? = some x) :
+    s.head? = some x := by
+  cases s with
+  | nil => rw [tsEscape_nil] at h; cases h
+  | cons c r =>
+    by_cases h92 : c = 92
+    · subst h92
+      exfalso
+      cases r with
+      | nil => rw [tsEscape] at h <;> simp_all
+      | cons e r' =>
+        by_cases he : e = 48
+        · subst he
+          cases r' with
+          | nil => rw [tsEscape_nul_end] at h; simp at h; exact hx h.symm
+          | cons d r'' =>
+            cases hd : isDigit d
+            · rw [tsEscape_nul_other d r'' hd] at h; simp at h; exact hx h.symm
+            · rw [tsEscape_nul_digit d r'' hd] at h; simp at h; exact hx h.symm
+        · rw [tsEscape_esc e r' he] at h; simp at h; exact hx h.symm
+    · by_cases h96 : c = 96
+      · subst h96; rw [tsEscape_backtick] at h; simp at h; exact absurd h.symm hx
+      · by_cases h13 : c = 13
+        · subst h13; rw [tsEscape_cr] at h; simp at h; exact absurd h.symm hx
+        · by_cases h36 : c = 36 ∧ r.head? = some 123
+          · obtain ⟨rfl, hr⟩ := h36
+            cases r with
+            | nil => simp at hr
+            | cons q r' =>
+              simp at hr; subst hr
+              rw [tsEscape_subst] at h; simp at h; exact absurd h.symm hx
+          · rw [tsEscape_plain c r h92 h96 h13 (fun e hh => h36 ⟨e, hh⟩)] at h
+            simpa using h
+
+theorem tsCook_hex00 (rest : Text) : tsCook (92 :: 120 :: 48 :: 48 :: rest) = (tsCook rest).map (0 :: ·) := by
+  rw [tsCook.eq_def]; simp [hexDigitVal]
+
+theorem tsCook_nul (rest : Text) (h : (rest.head?.map isDigit).getD false = false) :
+    tsCook (92 :: 48 :: rest) = (tsCook rest).map (0 :: ·) := by
+  rw [tsCook.eq_def]; simp [h]
+
+theorem tsCook_esc (e : Nat) (rest : Text) (he : e ≠ 48) (hesc : IsEsc e) :
+    ∃ c, escChar e = some c ∧ c < 128 ∧ tsCook (92 :: e :: rest) = (tsCook rest).map (c :: ·) := by
+  unfold IsEsc at hesc
+  rcases hesc with rfl | rfl | rfl | rfl | rfl | rfl | rfl | rfl
+  · exact ⟨9, by decide, by decide, by rw [tsCook.eq_def]; simp⟩
+  · exact ⟨11, by decide, by decide, by rw [tsCook.eq_def]; simp⟩
+  · exact absurd rfl he
+  · exact ⟨8, by decide, by decide, by rw [tsCook.eq_def]; simp⟩
+  · exact ⟨12, by decide, by decide, by rw [tsCook.eq_def]; simp⟩
+  · exact ⟨10, by decide, by decide, by rw [tsCook.eq_def]; simp⟩
+  · exact ⟨13, by decide, by decide, by rw [tsCook.eq_def]; simp⟩
+  · exact ⟨92, by decide, by decide, by rw [tsCook.eq_def]; simp [isDigit, utf16]⟩
+
+theorem tsCook_r (rest : Text) : tsCook (92 :: 114 :: rest) = (tsCook rest).map (13 :: ·) := by
+  rw [tsCook.eq_def]; simp
+
+theorem escChar_isEsc (e : Nat) (h : IsEsc e) : ∃ c, escChar e = some c ∧ c < 128 := by
+  unfold IsEsc at h
+  rcases h with rfl | rfl | rfl | rfl | rfl | rfl | rfl | rfl <;> simp [escChar]
+
+theorem utf16_small (c : Nat) (h : c < 65536) : utf16 c = [c] := by unfold utf16; rw [if_pos h]
+
+/-- **Both printers denote the same characters**: for well-escaped content the cooked template
+literal is exactly the UTF-16 form of the characters `string_constant_bytes` stores. -/
+theorem cook_escape (n : Nat) : ∀ s : Text, s.length ≤ n → WellEsc s →
+    tsCook (tsEscape s) = some ((wasmUnescape s).flatMap utf16) := by
+  induction n with
+  | zero =>
+    intro s hl _
+    have : s = [] := List.length_eq_zero_iff.mp (by omega)
+    subst this; simp [tsEscape_nil, tsCook, wasmUnescape]
+  | succ n ih =>
+    intro s hl hw
+    cases s with
+    | nil => simp [tsEscape_nil, tsCook, wasmUnescape]
+    | cons c r =>
+      simp only [List.length_cons] at hl
+      by_cases h92 : c = 92
+      · subst h92
+        cases r with
+        | nil => exact absurd hw (by simp [WellEsc])
+        | cons e r' =>
+          rw [WellEsc] at hw
+          obtain ⟨hesc, hw'⟩ := hw
+          obtain ⟨ch, hch, hsmall⟩ := escChar_isEsc e hesc
+          have hun : wasmUnescape (92 :: e :: r') = ch :: wasmUnescape r' := by
+            rw [wasmUnescape]; simp [hch]
+          simp only [List.length_cons] at hl
+          by_cases he : e = 48
+          · subst he
+            have hch0 : ch = 0 := by simp [escChar] at hch; exact hch.symm
+            subst hch0
+            cases r' with
+            | nil =>
+              rw [tsEscape_nul_end, tsCook_nul [] (by simp), hun]
+              simp [tsCook, wasmUnescape, utf16]
+            | cons d r'' =>
+              have ihd := ih (d :: r'') (by simp only [List.length_cons] at hl ⊢; omega) hw'
+              cases hd : isDigit d
+              · rw [tsEscape_nul_other d r'' hd, tsCook_nul, ihd, hun]
+                · simp [utf16]
+                · -- the character after `\0` is still not a digit
+                  cases hh : (tsEscape (d :: r'')).head? with
+                  | none => simp
+                  | some x =>
+                    simp only [Option.map_some, Option.getD_some]
+                    by_cases hx : x = 92
+                    · subst hx; decide
+                    · have := tsEscape_head (d :: r'') x hx hh
+                      simp at this; subst this; exact hd
+              · rw [tsEscape_nul_digit d r'' hd, tsCook_hex00, ihd, hun]
+                simp [utf16]
+          · obtain ⟨c2, hc2, _, hcook⟩ := tsCook_esc e (tsEscape r') he hesc
+            have : c2 = ch := by rw [hch] at hc2; exact (Option.some.inj hc2).symm
+            subst this
+            rw [tsEscape_esc e r' he, hcook, ih r' (by omega) hw', hun]
+            simp [utf16_small c2 (by omega)]
+      · have hw' : WellEsc r := (wellEsc_cons_plain c r h92).mp hw
+        have ihr := ih r (by omega) hw'
+        have hun : wasmUnescape (c :: r) = c :: wasmUnescape r := by
+          rw [wasmUnescape]
+          all_goals (intros; simp_all)
+        by_cases h96 : c = 96
+        · subst h96
+          rw [tsEscape_backtick, tsCook_escaped 96 _ (Or.inl rfl), ihr, hun]; simp
+        · by_cases h13 : c = 13
+          · subst h13
+            rw [tsEscape_cr, tsCook_r, ihr, hun]; simp [utf16]
+          · by_cases h36 : c = 36 ∧ r.head? = some 123
+            · obtain ⟨rfl, hr⟩ := h36
+              cases r with
+              | nil => simp at hr
+              | cons q r' =>
+                simp at hr; subst hr
+                rw [tsEscape_subst, tsCook_escaped 36 _ (Or.inr rfl), ihr, hun]; simp
+            · rw [tsEscape_plain c r h92 h96 h13 (fun e hh => h36 ⟨e, hh⟩),
+                tsCook_plain_cons c _ h92 h96 h13, ihr, hun]
+              · simp
+              · intro e hh
+                exact h36 ⟨e, tsEscape_head r 123 (by decide) hh⟩
+
+theorem wasmUnescape_scalar (n : Nat) : ∀ s : Text, s.length ≤ n → WellEsc s → (∀ c ∈ s, Scalar c) →
+    ∀ c ∈ wasmUnescape s, Scalar c := by
+  induction n with
+  | zero =>
+    intro s hl _ _
+    have : s = [] := List.length_eq_zero_iff.mp (by omega)
+    subst this; simp [wasmUnescape]
+  | succ n ih =>
+    intro s hl hw hs
+    cases s with
+    | nil => simp [wasmUnescape]
+    | cons c r =>
+      simp only [List.length_cons] at hl
+      by_cases h92 : c = 92
+      · subst h92
+        cases r with
+        | nil => exact absurd hw (by simp [WellEsc])
+        | cons e r' =>
+          rw [WellEsc] at hw
+          obtain ⟨ch, hch, hsmall⟩ := escChar_isEsc e hw.1
+          simp only [List.length_cons] at hl
+          rw [wasmUnescape]; simp only [hch]
+          intro x hx
+          rcases List.mem_cons.mp hx with rfl | hx
+          · unfold Scalar; omega
+          · exact ih r' (by omega) hw.2 (fun y hy => hs y (by simp [hy])) x hx
+      · have hw' : WellEsc r := (wellEsc_cons_plain c r h92).mp hw
+        rw [wasmUnescape]
+        · intro x hx
+          rcases List.mem_cons.mp hx with rfl | hx
+          · exact hs _ List.mem_cons_self
+          · exact ih r (by omega) hw' (fun y hy => hs y (List.mem_cons_of_mem _ hy)) x hx
+        all_goals (intros; simp_all)
+
+/-- content form: every well-escaped text of Unicode scalar values -/
+theorem strconst_agree_content (s : Text) (hw : WellEsc s) (hs : ∀ c ∈ s, Scalar c) :
+    tsDecode s = some (wasmDecode s) := by
+  unfold tsDecode wasmDecode
+  rw [cook_escape s.length s (Nat.le_refl _) hw,
+    utf8_roundtrip _ (wasmUnescape_scalar s.length s (Nat.le_refl _) hw hs)]
+
+/-- **`strconst_agree`, full strength** (true after fixes 0e855e5, 8056d1e, 9fd2988): for EVERY
+string literal the lexer accepts — all eight escape sequences, `\"`, back quotes, `${`, raw carriage
+returns, `\0` before digits, all of Unicode — the emitted TypeScript and the emitted WebAssembly
+(with its loader) hold the same string. -/
+theorem strconst_agree (raw : Text) (h : lexAccepts raw = true) (hs : ∀ c ∈ raw, Scalar c) :
+    tsDecode (content raw) = some (wasmDecode (content raw)) := by
+  obtain ⟨hw, hsub⟩ := content_wellEsc raw (lexAccepts_wellEscQ raw h)
+  exact strconst_agree_content _ hw (fun c hc => hs c (hsub c hc))
+
+example : lexAccepts [97, 92, 110, 98, 92, 48, 49, 13, 96, 36, 123, 92, 34, 233] = true := by decide
 
 end SamVerif.Backends
